@@ -838,6 +838,8 @@ impl<'a> Tr<'a> {
         // SAFETY of lifetimes: `callee` is a clone living in this frame; conv_ty only reads self.cur.self_ty/module
         let callee_ref: &FnEntry = unsafe { &*(&callee as *const FnEntry) };
         self.cur = unsafe { std::mem::transmute::<&FnEntry, &'a FnEntry>(callee_ref) };
+        self.reg.structs.set_hint(&callee.path);
+        self.reg.enums.set_hint(&callee.path);
         let mut ptys: Vec<Ty> = Vec::new();
         let mut has_self = false;
         for inp in &callee.sig.inputs {
@@ -854,6 +856,8 @@ impl<'a> Tr<'a> {
         };
         let self_ty = callee.self_ty.clone();
         self.cur = saved_cur;
+        self.reg.structs.set_hint(&saved_cur.path);
+        self.reg.enums.set_hint(&saved_cur.path);
         self.generics = saved_gen;
         self.pattern_generics = saved_pat;
         let mut map: HashMap<String, Ty> = HashMap::new();
@@ -994,10 +998,22 @@ impl<'a> Tr<'a> {
         }
         // user-defined inherent method
         if let Ty::Adt(adt) = &rt {
-            if let Some(fi) = resolve_fn(self.idx, self.reg, self.cur, Some(adt), &name, false) {
-                if self.idx.fns[fi].self_ty.as_deref() == Some(adt.as_str()) {
-                    return self.call_registered(fi, Some(recv), m.args.iter().collect(), Vec::new(), m.span());
-                }
+            // inherent method of the receiver's type
+            let cands: Vec<usize> = self
+                .idx
+                .fn_by_name
+                .get(&name)
+                .map(|v| v.iter().copied().filter(|i| self.reg.fns.contains_key(i) && self.idx.fns[*i].self_ty.as_deref() == Some(adt.as_str())).collect())
+                .unwrap_or_default();
+            let pick = if cands.len() == 1 {
+                Some(cands[0])
+            } else {
+                // same-named types in different modules: the one closest to the current function
+                let h = self.cur.path.clone();
+                cands.iter().copied().max_by_key(|i| self.idx.fns[*i].path.bytes().zip(h.bytes()).take_while(|(a, b)| a == b).count())
+            };
+            if let Some(fi) = pick {
+                return self.call_registered(fi, Some(recv), m.args.iter().collect(), Vec::new(), m.span());
             }
         }
         let _ = expect;
